@@ -91,10 +91,45 @@ def gen_div_hist(rng, N, p_bad=0.2, maxops=25, big=False):
     return out
 
 
+def twin_multigraphs(rng):
+    """two multigraphs with the same vertex set, support, valences and edge total but different
+    multiplicities: an even cycle with alternating multiplicities (a,b,a,b,..) vs (b,a,b,a,..),
+    plus common extra edges"""
+    n = rng.choice([4, 4, 6])
+    perm = list(range(n))
+    rng.shuffle(perm)
+    a, b = rng.sample([1, 2, 3, 4], 2)
+    E1, E2 = {}, {}
+    for i in range(n):
+        u, v = perm[i], perm[(i + 1) % n]
+        key = (min(u, v), max(u, v))
+        E1[key] = a if i % 2 == 0 else b
+        E2[key] = b if i % 2 == 0 else a
+    for _ in range(rng.randint(0, 2)):
+        u, v = rng.sample(range(n), 2)
+        key = (min(u, v), max(u, v))
+        if key not in E1:
+            m = rng.randint(1, 2)
+            E1[key] = m
+            E2[key] = m
+    return n, E1, E2
+
+
 def gen_div_arith(rng, N):
     out = []
     for _ in range(N):
         g, E = gen.gen_graph(rng, 1, 6)
+        if rng.random() < 0.08:
+            n, E, Etwin = twin_multigraphs(rng)
+            g = {"n": n, "edges": gen.present_edges(rng, E), "_kind": "twin", "_genus": gen.genus_of(n, E),
+                 "names": gen.gen_names(rng, n)}
+            A = [rng.randint(-3, 3) for _ in range(n)]
+            s = dict(g)
+            s.update(op="div_arith", A=A, B=list(A) if rng.random() < 0.7 else [rng.randint(-3, 3) for _ in range(n)],
+                     C=[rng.randint(-3, 3) for _ in range(n)], k=rng.choice([0, 1, -1, 2]), chipv=rng.randrange(n),
+                     edges2=gen.present_edges(rng, Etwin))
+            out.append(s)
+            continue
         n = g["n"]
         mag = rng.choice([5, 5, 100, 2 ** 70])
         s = dict(g)
@@ -102,9 +137,18 @@ def gen_div_arith(rng, N):
                  C=[rng.randint(-mag, mag) for _ in range(n)], k=rng.choice([0, 1, -1, 2, -3, 7, 2 ** 65, -2 ** 70]),
                  chipv=rref(rng, n, 0.1))
         r = rng.random()
-        if r < 0.25:
-            if rng.random() < 0.5:
+        if r < 0.3:
+            rr = rng.random()
+            if rr < 0.4:
                 s["edges2"] = gen.present_edges(rng, E)
+            elif rr < 0.7 and E:
+                # same support, multiplicities reassigned (valences / edge total may well coincide)
+                ms = list(E.values())
+                if rng.random() < 0.5:
+                    ms = ms[1:] + ms[:1]
+                else:
+                    rng.shuffle(ms)
+                s["edges2"] = gen.present_edges(rng, dict(zip(E.keys(), ms)))
             else:
                 _, E2 = gen.simple_family(rng, n)
                 s["edges2"] = gen.present_edges(rng, E2)
@@ -413,4 +457,21 @@ def gen_parking(rng, N):
         out.append({"op": "parking", "seq": seq, "n": nn})
     for k in range(-1, 6):
         out.append({"op": "parking_gen", "n": k})
+    return out
+
+
+def gen_winnable_hist(rng, N, nmax=5):
+    """the same chip counts asked again after the graph object gained edges"""
+    out = []
+    for _ in range(N):
+        g, E = gen.gen_graph(rng, 2, nmax, names=(rng.random() < 0.5))
+        n = g["n"]
+        d, band, debt = gen.gen_divisor(rng, n, g["_genus"], mag=3, band=rng.choice(["low", "low", "mid", "any"]))
+        adds = []
+        for _ in range(rng.randint(1, 3)):
+            a, b = rng.sample(range(n), 2)
+            adds.append([a, b, rng.randint(1, 2)])
+        s = dict(g)
+        s.update(op="winnable_hist", deg=d, adds=adds, _band=band, _debt=debt)
+        out.append(s)
     return out
